@@ -473,18 +473,29 @@ def _check_precedence_private():
             ({"alias": "p", "name": "p"}, _P, {"name": "p"}),
         ):
             before = copy.deepcopy(arg)
-            for wrap in (dict, types.MappingProxyType, collections.OrderedDict):
-                got = afs(_R, wrap(arg))
+            for wrap in (dict, types.MappingProxyType, collections.OrderedDict, _Guarded):
+                wrapped = wrap(arg)
+                try:
+                    got = afs(_R, wrapped)
+                except Exception as e:  # noqa
+                    clause = "C08.arg_unmodified" if ("mappingproxy" in str(e) or "pop" in str(e)) else "C08.arg_alias_precedence"
+                    fails.append((clause, f"{wrap.__name__} {before}: raised {type(e).__name__}: {e}; expected {cls.__name__}(**{kw})"))
+                    continue
                 if type(got) is not cls or got.kw != kw:
                     fails.append(("C08.arg_alias_precedence", f"{arg}: built {type(got).__name__}(**{got.kw}), expected {cls.__name__}(**{kw})"))
                 if arg != before:
                     fails.append(("C08.arg_unmodified", f"{before} became {arg}"))
-        inst = _Q(z=1)
-        if afs(_R, inst) is not inst or afs(_Q, inst) is not inst:
-            fails.append(("C08.arg_instance", "private instance not returned as is"))
-        got = afs(_R, "p")
-        if type(got) is not _P or got.kw != {}:
-            fails.append(("C08.arg_str", "str did not build the class with no arguments"))
+                if isinstance(wrapped, _Guarded) and wrapped.touched:
+                    fails.append(("C08.arg_unmodified", f"mutating methods called on the mapping: {wrapped.touched}"))
+        try:
+            inst = _Q(z=1)
+            if afs(_R, inst) is not inst or afs(_Q, inst) is not inst:
+                fails.append(("C08.arg_instance", "private instance not returned as is"))
+            got = afs(_R, "p")
+            if type(got) is not _P or got.kw != {}:
+                fails.append(("C08.arg_str", "str did not build the class with no arguments"))
+        except Exception as e:  # noqa
+            fails.append(("C08.arg_str", f"instance / str form raised {type(e).__name__}: {e}"))
     finally:
         del _P, _Q, _R
         gc.collect()
@@ -542,7 +553,8 @@ def _build_tree(parents, root_base):
     nodes = []
     for i, p in enumerate(parents):
         base = root_base if p < 0 else nodes[p]
-        nodes.append(type(f"_C08Node{i}", (base,), {"__module__": "rtc._c08_throwaway", "__init__": lambda self, *a, **k: None}))
+        # names deliberately out of step with the creation order
+        nodes.append(type(f"_C08Node{(3, 0, 5, 1, 4, 2, 7, 6)[i % 8]}_{i}", (base,), {"__module__": "rtc._c08_throwaway", "__init__": lambda self, *a, **k: None}))
     return nodes
 
 
@@ -689,7 +701,7 @@ def _run_shadow(col, tier, seed, budget_s):
             if full:
                 it = ((p, al) for p in trees for al in itertools.product(opts, repeat=n))
             else:
-                quota = 12000
+                quota = 25000
 
                 def gen():
                     for _ in range(quota):
@@ -837,7 +849,7 @@ def _random_config(seed):
         if rng.integers(2):
             ckw["kaldi_shift"] = bool(rng.integers(2))
     cfg = _leaf(rng, calias, ckw)
-    nsamp = int(rng.integers(int(0.05 * sr), int(0.2 * sr)))
+    nsamp = int(rng.integers(int(0.25 * sr), int(0.5 * sr)))
     return cfg, sr, nsamp
 
 
@@ -926,7 +938,7 @@ def _run_nested(col, tier, seed, budget_s):
     import time
 
     t_end = time.time() + budget_s
-    n = 60 if tier == "quick" else 2000
+    n = 120 if tier == "quick" else 3000
     ok = raised = 0
     for k in range(n):
         if time.time() > t_end or col.too_many_failures():
@@ -948,15 +960,15 @@ def run(tier: str, seed: int) -> dict:
     col = _common.Collector(PROPERTY, tier, seed, budget_s=55.0 if tier == "quick" else 540.0)
     ctx = _run_registry(col)
     _run_arg(col, ctx)
-    _run_nested(col, tier, seed, 14.0 if tier == "quick" else 150.0)
+    _run_nested(col, tier, seed, 16.0 if tier == "quick" else 150.0)
     _run_shadow(col, tier, seed, 22.0 if tier == "quick" else 330.0)
     return col.result(
         rule="registry: one case per (class used as family, alias) pair, all of them (exhaustive: true); arg: one case per (concrete class, alias, form in instance/str/alias/name/both/fail, "
         "container in dict/OrderedDict/MappingProxyType/guarded Mapping); shadow: one case per (creation-ordered rooted tree, alias assignment), each queried from every node with aliases a, b and an unknown one, "
         "non-trivial when some alias is carried by >= 2 classes; nested: one case per seeded configuration, non-trivial when the twin produced >= 1 frame.",
         bound="registry part EXHAUSTIVE over the shipped registry read from the source. BOUNDED otherwise: class trees with <= 6 nodes (all (n-1)! creation orders) x alias sets over a 2-letter alphabet "
-        "(+ 'no own aliases attribute' for <= 5 nodes) - complete in thorough, complete up to 30000 assignments per size and a seeded sample of 12000 above that in quick; "
-        "nested configurations: 60 (quick) / up to 2000 (thorough) seeded trees over all scale, bank, window and computer aliases",
+        "(+ 'no own aliases attribute' for <= 5 nodes) - complete in thorough, complete up to 30000 assignments per size and a seeded sample of 25000 above that in quick; "
+        "nested configurations: 120 (quick) / up to 3000 (thorough) seeded trees over all scale, bank, window and computer aliases",
         assumptions=ASSUMPTIONS,
     )
 
